@@ -8,7 +8,8 @@
 (*                   where the history leading to the state avoids the Hazards tags (so the last call   *)
 (*                   really is applied to that state in the code) -- every state of the hazard-free     *)
 (*                   state graph x every call;                                                          *)
-(*   Mode = "sim"    with tlc -simulate: long random call sequences, no canonical restriction.          *)
+(*   Mode = "sim"    with tlc -simulate: long random call sequences, no canonical restriction;          *)
+(*   Mode = "simclean"  the same, drawing only calls without a Hazards tag.                             *)
 (* Ops restricts the alphabet; in graph mode LastOps restricts the LAST call of an emitted history, so   *)
 (* that several TLC processes can share one family (each explores the same prefixes, emits its share).  *)
 EXTENDS HCache, Json
@@ -37,7 +38,7 @@ Step(c) ==
   /\ prev' = node
   /\ stop' = (Mode = "graph" /\ Tags(node, c) \cap Hazards # {})
 GenNext ==
-  \/ /\ Mode # "sim" /\ Len(h) < MaxLen /\ ~stop
+  \/ /\ Mode \in {"seq", "graph"} /\ Len(h) < MaxLen /\ ~stop
      /\ \E c \in AllCalls :
            /\ c.op \in Ops
            /\ Mode = "graph" /\ Len(h) = MaxLen - 1 => c.op \in LastOps
@@ -46,7 +47,10 @@ GenNext ==
   \* simulation: one uniformly drawn enabled call per step (TLC would otherwise build every successor to pick one)
   \/ /\ Mode = "sim" /\ Len(h) < MaxLen
      /\ \E c \in {RandomElement({d \in AllCalls : d.op \in Ops /\ Fits(node, d)})} : Step(c)
-  \/ /\ Mode = "sim" /\ Len(h) = MaxLen /\ ~stop      \* one closing step, so that a simulated behaviour is printed once
+  \* the same, drawn among the calls without a hazard tag: long sequences inside the stratum that must be clean
+  \/ /\ Mode = "simclean" /\ Len(h) < MaxLen
+     /\ \E c \in {RandomElement({d \in AllCalls : d.op \in Ops /\ Fits(node, d) /\ Tags(node, d) \cap Hazards = {}})} : Step(c)
+  \/ /\ Mode \in {"sim", "simclean"} /\ Len(h) = MaxLen /\ ~stop      \* one closing step, so that a simulated behaviour is printed once
      /\ stop' = TRUE /\ UNCHANGED <<node, h, prev>>
 GenSpec == GenInit /\ [][GenNext]_gvars
 
@@ -54,6 +58,6 @@ Strip(e) == Call(e.op, e.p, e.q, e.i, e.t, e.m, e.k)
 GraphView == IF Mode = "graph" THEN <<prev, IF Len(h) = 0 THEN NoCall ELSE Strip(h[Len(h)])>> ELSE gvars
 
 Emit == (CASE Mode = "graph" -> Len(h) > 0 /\ h[Len(h)].op \in LastOps
-           [] Mode = "sim"   -> stop
+           [] Mode \in {"sim", "simclean"} -> stop
            [] OTHER          -> Len(h) = MaxLen) => PrintT("@@" \o ToJson(h))
 =============================================================================
